@@ -139,7 +139,43 @@ func plant(t *rapid.T, set *ymodel.Set) string {
 		}
 		return false
 	}
-	switch rapid.SampledFrom([]string{"missing-target", "leaf-target", "collides-with-own-child", "two-augments-collide"}).Draw(t, "fault") {
+	switch rapid.SampledFrom([]string{"missing-target", "leaf-target", "collides-with-own-child", "two-augments-collide", "two-augments-use-one-grouping"}).Draw(t, "fault") {
+	case "two-augments-use-one-grouping":
+		// both augments bring the colliding nodes through uses of the same grouping
+		tg := pick(func(x schema.Target) bool { return can(x.Node.Kind) && x.Node.Kind != ymodel.KChoice }, "parent")
+		if tg == nil {
+			return ""
+		}
+		owner := set.Owner(from)
+		owner.Groupings = append(owner.Groupings, &ymodel.Grouping{Name: "gclash", Body: ymodel.Body{Nodes: []*ymodel.Node{leaf("zz4"), {Kind: ymodel.KContainer, Name: "zz5", Body: ymodel.Body{Nodes: []*ymodel.Node{leaf("zz6")}}}}}})
+		usesIn := func(m *ymodel.Module) *ymodel.Node {
+			if set.Owner(m) == owner {
+				return &ymodel.Node{Kind: ymodel.KUses, Name: "gclash"}
+			}
+			for _, im := range m.Imports {
+				if im.Module == owner.Name {
+					return &ymodel.Node{Kind: ymodel.KUses, Name: im.Prefix + ":gclash"}
+				}
+			}
+			return nil
+		}
+		from.Augments = append(from.Augments, &ymodel.Augment{Path: tg.Path, Body: ymodel.Body{Nodes: []*ymodel.Node{usesIn(from), leaf("zz7")}}})
+		other, otherPath := from, tg.Path
+		for _, m := range set.Modules {
+			if m == from || usesIn(m) == nil {
+				continue
+			}
+			for _, x := range schema.Targets(set, trees, m) {
+				if x.Node == tg.Node {
+					other, otherPath = m, x.Path
+				}
+			}
+		}
+		other.Augments = append(other.Augments, &ymodel.Augment{Path: otherPath, Body: ymodel.Body{Nodes: []*ymodel.Node{usesIn(other), leaf("zz8")}}})
+		if other != from {
+			return "two-modules-augment-through-one-grouping"
+		}
+		return "two-augments-through-one-grouping"
 	case "missing-target":
 		tg := pick(func(schema.Target) bool { return true }, "near")
 		path := tg.Path
@@ -232,7 +268,7 @@ func TestCheck(t *testing.T) {
 	ev.Run(t, ev.Spec[Case]{
 		ID:    "C07",
 		Level: "exploration",
-		Rule: "module sets from the schema model with 1-6 augments over 1-3 modules and their submodules: targets in the same and in imported modules, created by uses, by submodule content, by other augments (chains; statement order inside each module shuffled, so also against dependency order), inside choice, explicit case, rpc input and output (written and unwritten), notification; uses inside the augment; each set loaded in model order and in two random load orders. One quarter of the cases plant an augment that cannot be applied: missing target (last, first or replaced step), leaf or leaf-list target, a child name the target already has, two augments (from two modules where possible) adding the same name. " +
+		Rule: "module sets from the schema model with 1-6 augments over 1-3 modules and their submodules: targets in the same and in imported modules, created by uses, by submodule content, by other augments (chains; statement order inside each module shuffled, so also against dependency order), inside choice, explicit case, rpc input and output (written and unwritten), notification; uses inside the augment; each set loaded in model order and in two random load orders. One quarter of the cases plant an augment that cannot be applied: missing target (last, first or replaced step), leaf or leaf-list target, a child name the target already has, two augments (from two modules where possible) adding the same name, written out or brought by uses of one grouping. " +
 			"Oracle: valid sets process without error and every module tree equals the reference graft (each grafted node once, with the augmenting module's namespace and instantiating module on the node and its descendants) in every load order; a planted fault yields at least one error and no panic. " +
 			"Non-trivial = at least one augment; distinct by (set, orders)",
 		Assumptions: []string{
